@@ -612,10 +612,147 @@ Definition expect (l : hlabel) : option bool * option bool * option bool :=
   end.
 Definition meets (e : option bool) (o : bool) : bool := match e with None => true | Some b => Bool.eqb b o end.
 
+(* ================================================================== process-level settings *)
+(* httpserver.Port (-port), httpserver.Host (-host), certmagic.HTTPPort (-http-port), certmagic.HTTPSPort
+   (-https-port) as strings; the functions above are the pipeline at [settings0].  What stays a literal in
+   the code stays a literal here: caskettls.QualifiesForManagedTLS compares the port with "80", and
+   InspectServerBlocks compares Port with DefaultPort "2015" / Host with DefaultHost "". *)
+Record settings := { s_port : bytes; s_host : bytes; s_http : bytes; s_https : bytes }.
+Definition settings0 : settings := {| s_port := P2015; s_host := []; s_http := P80; s_https := P443 |}.
+
+Definition with_host (s : site) (x : bytes) : site :=
+  {| scheme := scheme s; host := x; port := port s; listen := listen s; tls := tls s; redir := redir s |}.
+
+(* standardizeAddress with the configured HTTP/HTTPS ports *)
+Definition std_port_s (st : settings) (p : bytes) : bytes :=
+  if beq p HTTPS then s_https st else if beq p HTTP then s_http st else p.
+Definition std_addr_s (st : settings) (sch prt : bytes) : option (bytes * bytes) :=
+  let sch := to_lower sch in
+  let p0 := std_port_s st prt in
+  let p := match p0 with
+           | [] => if beq sch HTTP then s_http st else if beq sch HTTPS then s_https st else []
+           | _ => p0
+           end in
+  if (beq sch HTTP && beq p (s_https st)) || (beq sch HTTPS && beq p (s_http st)) then None
+  else
+    let sch' := match sch with
+                | [] => if beq p (s_http st) then HTTP else if beq p (s_https st) then HTTPS else []
+                | _ => sch
+                end in
+    Some (sch', p).
+
+(* InspectServerBlocks, after standardizeAddress and Normalize: "fill in address components from
+   command line" — the scheme is NOT inferred again *)
+Definition default_host_s (st : settings) (h : bytes) : bytes :=
+  match h with [] => (match s_host st with [] => h | _ => s_host st end) | _ => h end.
+Definition default_port_s (st : settings) (p : bytes) : bytes :=
+  match p with [] => if beq (s_port st) P2015 then p else s_port st | _ => p end.
+
+Definition enable_one_s (st : settings) (s : site) : site :=
+  let t := tls s in
+  if mg t && negb (od t) then
+    let s1 := with_scheme (with_tls s (set_en true t)) HTTPS in
+    if beq (port s1) [] && (negb (mn t) || od t) && negb (beq (host s1) (bs "localhost"))
+    then with_port s1 (s_https st) else s1
+  else s.
+
+Definition redir_port_s (st : settings) (c : site) : bytes := if beq (port c) (s_https st) then [] else port c.
+Definition redir_site_s (st : settings) (c : site) : site :=
+  {| scheme := []; host := host c; port := s_http st; listen := listen c;
+     tls := {| en := false; mg := false; mn := false; ss := false; nr := false; od := od (tls c); email := [] |};
+     redir := Some (redir_port_s st c) |}.
+Definition wants_redirect_s (st : settings) (all : list site) (i : nat) (c : site) : bool :=
+  en (tls c) && negb (nr (tls c)) && negb (beq (port c) (s_http st)) && negb (beq (scheme c) HTTP)
+  && negb (host_has_other_port all i (s_http st))
+  && (beq (port c) (s_https st) || negb (host_has_other_port all i (s_https st))).
+Fixpoint mpr_s (st : settings) (n i : nat) (all : list site) : list site :=
+  match n with
+  | O => all
+  | S n' =>
+    match nth_error all i with
+    | Some c => mpr_s st n' (S i) (if wants_redirect_s st all i c then all ++ [redir_site_s st c] else all)
+    | None => all
+    end
+  end.
+Definition make_plaintext_redirects_s (st : settings) (all : list site) : list site := mpr_s st (length all) 0 all.
+
+(* MakeServers' per-site loop: "make sure TLS is disabled for explicitly-HTTP sites":
+   cfg.Addr.Port == httpPort || cfg.Addr.Scheme == "http" *)
+Definition ms_one_s (st : settings) (s : site) : site :=
+  let t := tls s in
+  if en t then
+    let s1 := if beq (port s) (s_http st) || beq (scheme s) HTTP then with_tls s (set_en false t)
+              else match scheme s with [] => with_scheme s HTTPS | _ => s end in
+    if beq (port s1) [] && ((negb (mn t) && negb (ss t)) || od t) then with_port s1 (s_https st) else s1
+  else s.
+Definition group_one_s (st : settings) (s : site) : site := match port s with [] => with_port s (s_port st) | _ => s end.
+
+Definition stage_a_s (st : settings) (init : list site) : list site :=
+  make_plaintext_redirects_s st (map (enable_one_s st) (map mark_one init)).
+Definition stage_b_s (st : settings) (a : list site) : list site := map (group_one_s st) (map (ms_one_s st) a).
+Definition pipeline_s (st : settings) (init : list site) : list site := stage_b_s st (stage_a_s st init).
+
+(* ---- executable spec under settings, on the implementation's own observations ---- *)
+(* a site is a plain-HTTP site when its scheme is http or its EFFECTIVE port (whatever its source: the
+   address text, the scheme, or the default-port setting) is the HTTP port *)
+Definition http_site_s (st : settings) (o : osite) : bool := beq (port o) (s_http st) || beq (scheme o) HTTP.
+Definition declared_http_s (st : settings) (d : dsite) : bool :=
+  declared_http d || beq (da_scheme d) HTTP || beq (da_port d) P80 || beq (da_port d) (s_http st).
+Definition spec_qualifies_s (st : settings) (d : dsite) : bool :=
+  (subject_public (da_host d) || tlsdir_on_demand d.(d_tls))
+  && negb (local_addr (da_host d)) && negb (local_addr (d_listen d))
+  && negb (declared_http_s st d)
+  && tlsdir_allows_managed (d_tls d).
+Fixpoint spec_managed_s (st : settings) (ds : list dsite) (obs : list osite) : bool :=
+  match ds, obs with
+  | d :: ds', o :: obs' => Bool.eqb (mg (tls o)) (spec_qualifies_s st d) && negb (is_synth o) && spec_managed_s st ds' obs'
+  | [], _ => forallb (fun o => is_synth o && negb (mg (tls o))) obs
+  | _ :: _, [] => false
+  end.
+(* S2 under settings: after MakeServers no plain-HTTP site has TLS enabled or the scheme https;
+   synthesised sites are plain sites on the HTTP port *)
+Definition spec_http_site_no_tls_s (st : settings) (obsb : list osite) : bool :=
+  forallb (fun o => negb (http_site_s st o) || (negb (en (tls o)) && negb (beq (scheme o) HTTPS))) obsb
+  && forallb (fun o => negb (is_synth o) || (negb (en (tls o)) && beq (port o) (s_http st))) obsb.
+(* the servers MakeServers built: (listener port, has a TLS configuration) *)
+Definition spec_servers_s (st : settings) (srv : list (bytes * bool)) : bool :=
+  forallb (fun x => negb (beq (fst x) (s_http st)) || negb (snd x)) srv.
+
+Definition https_site_s (st : settings) (o : osite) : bool :=
+  en (tls o) && negb (beq (port o) (s_http st)) && negb (beq (scheme o) HTTP).
+Definition has_plain_sibling_s (st : settings) (decl : list osite) (h : bytes) : bool :=
+  existsb (fun o => beq (host o) h && beq (port o) (s_http st)) decl.
+Definition target_matches_s (st : settings) (t : bytes) (o : osite) : bool :=
+  match t with
+  | [] => beq (port o) (s_https st) || beq (port o) [] || beq (port o) (s_port st)
+  | _ => beq t (port o)
+  end.
+Definition spec_redirect_sound_s (st : settings) (fin : list osite) : bool :=
+  let decl := declared_of fin in
+  forallb (fun r =>
+    match redir r with
+    | Some t =>
+      negb (beq t (s_http st)) && negb (beq t (s_https st)) && negb (has_plain_sibling_s st decl (host r))
+      && existsb (fun o => beq (host o) (host r) && https_site_s st o && negb (nr (tls o)) && target_matches_s st t o) decl
+    | None => true
+    end) fin.
+Definition spec_redirect_complete_s (st : settings) (fin : list osite) : bool :=
+  let decl := declared_of fin in
+  let syn := synth_of fin in
+  forallb (fun o => negb (https_site_s st o) || nr (tls o) || has_plain_sibling_s st decl (host o)
+                    || existsb (fun r => beq (host r) (host o)) syn) decl.
+Definition spec_redirects_s (st : settings) (fin : list osite) : bool :=
+  spec_redirect_sound_s st fin && spec_redirect_complete_s st fin && nodup_hosts (synth_of fin).
+
+
 Inductive case :=
 (* whole pipeline on a set of declared sites; obs_a after the parsing callback's stages,
    obs_b after MakeServers (None when MakeServers was not run) *)
 | CPipe (ds : list dsite) (obs_a : list osite) (obs_b : option (list osite))
+(* the same under process-level settings (-port, -host, -http-port, -https-port): whosts = the host of each
+   declaration as written ("" = none), srv = (listener port, has TLS config) of the servers MakeServers built *)
+| CPipeS (st : settings) (whosts : list bytes) (ds : list dsite) (obs_a : list osite) (obs_b : option (list osite))
+         (srv : list (bytes * bool))
 (* the tls directive alone failed to set up *)
 | CSetupErr (d : tlsdir)
 (* standardizeAddress rejected the declaration *)
@@ -662,6 +799,19 @@ Definition addr_agrees (d : dsite) : bool :=
   | None => false
   end.
 
+Definition addr_agrees_s (st : settings) (d : dsite) : bool :=
+  match std_addr_s st (ds_scheme d) (ds_port d) with
+  | Some (sc, p) => beq sc (da_scheme d) && beq (default_port_s st p) (da_port d)
+  | None => false
+  end.
+(* a declaration without host gets the default host; other hosts come from url.Parse + Normalize (oracle) *)
+Fixpoint hosts_agree_s (st : settings) (wh : list bytes) (ds : list dsite) : bool :=
+  match wh, ds with
+  | w :: wh', d :: ds' => (match w with [] => beq (da_host d) (default_host_s st []) | _ => true end) && hosts_agree_s st wh' ds'
+  | [], [] => true
+  | _, _ => false
+  end.
+
 Definition judge (c : case) : N :=
   match c with
   | CPipe ds oa ob =>
@@ -680,6 +830,24 @@ Definition judge (c : case) : N :=
         spec_managed ds oa &&
         match ob with
         | Some b => spec_http_no_tls ds b && spec_redirects b
+        | None => true
+        end in
+      verdict agree spec
+  | CPipeS st wh ds oa ob srv =>
+      let agree :=
+        forallb (addr_agrees_s st) ds && hosts_agree_s st wh ds &&
+        forallb (fun d => beq (to_lower (da_host d)) (da_host d)) ds &&
+        match init_sites ds with
+        | None => false
+        | Some init =>
+          let a := stage_a_s st init in
+          list_beq site_eqb a oa &&
+          match ob with Some b => list_beq site_eqb (stage_b_s st a) b | None => true end
+        end in
+      let spec :=
+        spec_managed_s st ds oa &&
+        match ob with
+        | Some b => spec_http_site_no_tls_s st b && spec_redirects_s st b && spec_servers_s st srv
         | None => true
         end in
       verdict agree spec
